@@ -2,7 +2,18 @@
 import json, os
 HERE = os.path.dirname(os.path.abspath(__file__))
 
+CLI_NOTE = ("Trusted: the device reference model (one line per (rule,key), own nesting via the vendor exit word, vendor session "
+            "table), the independent rule/ACL matchers, the synthetic-rulebook domain (head-word-disjoint sibling rules, at most one "
+            "%ordered rule per block, block rows fully determined by their key, %rewrite only as the shipped body rule, "
+            "permanent/ignore_changes only outside %ordered blocks). Sampling, not proof. Junos-style flattening vendors not covered.")
+
 CLAIMED = {
+ "C01": dict(
+    engine="cli",
+    technique="deterministic simulation with fault injection: seeded histories of the real `annet deploy` against simulated devices (fetch failures/stalls, connection cuts at any command, out-of-band edits) on a virtual clock; reference device model as oracle",
+    level_text="Seeded exploration of whole-system histories: the real api.adeploy (generators, ACL, diff, patch, ordering, vendor formatter, deploy rulebook) runs against CliDevice reference models over seeded synthetic rulebooks for nine vendor families; after every un-cut deploy the device must equal the reference expectation, annet's own post-deploy check must agree, and a second deploy must send nothing; after a cut or failed fetch nothing is assumed and the next fault-free deploy must converge.",
+    design_ref="DESIGN.md 3.5, 5 (C01)",
+    level_note=CLI_NOTE),
  "C12": dict(
     engine="pool",
     technique="deterministic simulation with fault injection: seeded search over schedules, delays and task faults of the real Parallel loop on a fake multiprocessing/clock",
